@@ -199,7 +199,7 @@ def shadow_densify(coords, res):
                 out.append((F(x), F(y)))
                 d, e13 = fexact("+", d, res)
                 ok &= e13
-                if len(out) > 5000:
+                if len(out) > 200000:
                     return False, None
         out.append((F(p2[0]), F(p2[1])))
     return ok, out
@@ -427,11 +427,14 @@ SINU_WKT = ('PROJCRS["unknown",BASEGEOGCRS["unknown",DATUM["unknown",ELLIPSOID["
             'ID["EPSG",8806]],PARAMETER["False northing",0,LENGTHUNIT["metre",1],ID["EPSG",8807]]],CS[Cartesian,2],'
             'AXIS["(E)",east,ORDER[1],LENGTHUNIT["metre",1,ID["EPSG",9001]]],AXIS["(N)",north,ORDER[2],'
             'LENGTHUNIT["metre",1,ID["EPSG",9001]]]]')
-CRS_SPECS = ["EPSG:4326", "epsg:4326", "EPSG:3857", "EPSG:32633", "EPSG:3035", "EPSG:6933", SINU, LAEA_C, SINU_WKT]
+# EPSG:4258 (ETRS89) and EPSG:4269 (NAD83) are geographic like EPSG:4326: geographic -> geographic pairs
+CRS_SPECS = ["EPSG:4326", "epsg:4326", "EPSG:3857", "EPSG:32633", "EPSG:3035", "EPSG:6933", SINU, LAEA_C, SINU_WKT,
+             "EPSG:4258", "EPSG:4269"]
 # vertices well inside the area of use of every CRS of the alphabet that is paired with the source
 AREA = {"EPSG:4326": (12.0, 50.0, 2.0 ** -3), "epsg:4326": (12.0, 50.0, 2.0 ** -3), "EPSG:3857": (1441792.0, 6553600.0, 1024.0),
         "EPSG:32633": (409600.0, 5570560.0, 512.0), "EPSG:6933": (1179648.0, 5242880.0, 1024.0),
         "EPSG:3035": (4456448.0, 3014656.0, 1024.0),
+        "EPSG:4258": (12.0, 50.0, 2.0 ** -3), "EPSG:4269": (12.0, 50.0, 2.0 ** -3),
         SINU: (851968.0, 5570560.0, 1024.0), SINU_WKT: (851968.0, 5570560.0, 1024.0), LAEA_C: (65536.0, 32768.0, 1024.0)}
 
 
@@ -1332,6 +1335,20 @@ def search(out, tier, first=()):
         if i % 3 == 0:
             coords, _ = gen_polyline(rng)
             run("densify", coords, HUGE[(i // 3) % len(HUGE)])
+    # very long edges: edge length / resolution between 1e4 and 1e5 (few cases, they are big); exactness domain
+    # (length = 2^k * unit, resolution = unit or 3 * unit), judged by the longest gap, retention and the vertex count
+    big = [(2 ** 14, 1, (1, 0)), (2 ** 15, 3, (0, -1)), (2 ** 14, 1, (3, 4))] + ([(2 ** 16, 1, (-1, 0))] if tier != "quick" else [])
+    for k, (n, m, (ax, ay)) in enumerate(big):
+        u = 2.0 ** rng.randint(-12, -6)
+        h = 5 if (ax, ay) == (3, 4) else 1
+        x0, y0 = rng.choice([(0.0, 0.0), (12.0, 50.0), (-3.0, 7.5)])
+        coords = [[x0, y0], [x0 + ax * n * u, y0 + ay * n * u], [x0 + ax * n * u + u, y0 + ay * n * u]]
+        res = m * h * u
+        if shadow_densify([tuple(p) for p in coords], res)[0]:
+            run("densify", coords, res)
+            if k == 0:
+                run("segmented", ["Polygon", rect(x0, y0, n * u, 4 * u), [rect(x0 + u, y0 + u, 2 * u, 2 * u)]], res)
+                run("to_crs", "EPSG:4326", ["Line", [[12.0, 50.0], [12.0 + n * 2.0 ** -13, 50.0]]], "EPSG:4258", 2.0 ** -13)
     # arbitrary floats: retention only
     for _ in range(200 if tier == "quick" else 3000):
         coords = [[rng.uniform(-1e3, 1e3), rng.uniform(-1e3, 1e3)] for _ in range(rng.randint(1, 5))]
@@ -1428,6 +1445,16 @@ def search(out, tier, first=()):
         for src, g, dst in cross_cases(specs, 12 if tier == "quick" else 60):
             run_after(hist, specs, "to_crs", src, g, dst, None)
             run_after(hist, specs, "roundtrip", src, g, dst)
+    # geographic -> geographic pairs with a resolution (the Australian datums only here, after their histories)
+    for i in range(8 if tier == "quick" else 60):
+        a_, b_ = rng.choice([("EPSG:4326", "EPSG:4283"), ("EPSG:4283", "EPSG:4326"), ("EPSG:4326", "EPSG:7844"),
+                             ("EPSG:7844", "EPSG:4283"), ("EPSG:4269", "EPSG:4258"), ("EPSG:4258", "epsg:4326")])
+        x0, y0 = (146.0, -35.0) if "4283" in a_ + b_ or "7844" in a_ + b_ else (12.0, 50.0)
+        u = 2.0 ** -3
+        g = rng.choice([["Polygon", rect(x0, y0, 8 * u, 4 * u), [rect(x0 + u, y0 + u, 2 * u, u)]],
+                        ["Line", [[x0, y0], [x0 + 16 * u, y0], [x0 + 16 * u, y0 + 4 * u]]],
+                        ["Multi", "MLine", [["Line", [[x0, y0], [x0, y0 + 8 * u]]], ["Line", [[x0 + u, y0], [x0 + 5 * u, y0]]]]]])
+        run("to_crs", a_, g, b_, rng.choice([u / 4, u, 3 * u / 2]), rng.random() < 0.3)
     # the transformer itself (numpy path, NaN harmonisation); 4326 -> 4258 is a no-op pipeline that lets a NaN through per axis
     nan = float("nan")
     for src, dst in [("EPSG:4326", "EPSG:4258"), ("EPSG:4326", "EPSG:3857"), ("EPSG:3857", "EPSG:4326"),
